@@ -16,6 +16,7 @@ type Event struct {
 	OK      *Term
 	Fn      string
 	Args    []Val
+	ArgNames []string // go of a closure: names of the captured variables (parallel to the leading Args)
 	Res     []Val
 	Guarded bool // part of a select that also waits on ctx.Done (or the ctxdone case itself)
 	InSelect bool
@@ -101,6 +102,7 @@ type State struct {
 	path    []string
 	segStart string // cut point where the current segment started: "entry" or "loop k"
 	segHeap  map[string]*Term // heap at the start of the current segment (for pre(...) in rows)
+	segLocals map[string]Val  // values of the unit frame's value-locals (loop phis) at the start of the segment
 	segSpec  *FuncSpec
 	cancelled bool
 	notes   []string
@@ -111,7 +113,7 @@ type State struct {
 func (st *State) top() *Frame { return st.frames[len(st.frames)-1] }
 
 func (st *State) clone() *State {
-	n := &State{heap: map[string]*Term{}, globals: map[*ssa.Global]Val{}, alloc: st.alloc, segStart: st.segStart, segHeap: st.segHeap, segSpec: st.segSpec, cancelled: st.cancelled, noObl: st.noObl}
+	n := &State{heap: map[string]*Term{}, globals: map[*ssa.Global]Val{}, alloc: st.alloc, segStart: st.segStart, segHeap: st.segHeap, segLocals: st.segLocals, segSpec: st.segSpec, cancelled: st.cancelled, noObl: st.noObl}
 	for k, v := range st.heap {
 		n.heap[k] = v
 	}
